@@ -83,6 +83,14 @@ func markedSlice(p *Prog, fn *Func, s ast.Expr, at ast.Node) (markShape, string)
 		return markNone, "announced slice is not a plain variable: " + p.Src(s)
 	}
 	obj := p.ObjOf(id)
+	// a parameter of an extracted block: the list is the argument at its only call site
+	if k := paramIndexOfObj(p, fn, obj); k >= 0 {
+		if hs := p.HelperSite(fn); hs != nil && k < len(hs.Call.Args) {
+			if shape, why := markedSlice(p, hs.Caller, hs.Call.Args[k], hs.Call); shape != markNone {
+				return shape, why
+			}
+		}
+	}
 	// (1) built by appends under a successful mark
 	apps := appendSites(p, fn, func(e ast.Expr) bool {
 		eid, ok := unparen(e).(*ast.Ident)
